@@ -159,6 +159,7 @@ def explore_harnesses(pool, names, max_paths, seed, time_budget=None):
         pending.append(pool.apply_async(_explore, ((n, [], 8),)))
     t0 = time.time()
     rnd = random.Random(seed)
+    t_log = [time.time()]
     while pending:
         nxt = []
         progressed = False
@@ -208,6 +209,9 @@ def explore_harnesses(pool, names, max_paths, seed, time_budget=None):
         pending = nxt
         if not progressed:
             time.sleep(0.01)
+        if time.time() - t_log[0] > 30:
+            t_log[0] = time.time()
+            log('  [progress %ds] ' % (time.time() - t0) + ' '.join(f'{h.split("::")[-1]}={r.paths}' for h, r in res.items()) + f' jobs={len(pending)}')
     return res
 
 
@@ -256,3 +260,231 @@ def native_run(binary, base, cases):
     if r.returncode != 0:
         raise RuntimeError('native replay crashed: ' + r.stderr[-2000:])
     return parse_transcript(open(op).read())
+
+
+# ------------------------------------------------------------------------------ main
+def load_kf():
+    p = os.path.join(VERIF, 'known_findings.json')
+    if not os.path.exists(p):
+        return {'known': [], 'fixed': []}
+    return json.load(open(p))
+
+
+def solver_versions():
+    import z3
+    return {'z3': z3.get_version_string()}
+
+
+def run_props(prop_ids, tier, seed, keep=False):
+    from . import props as P
+    t_start = time.time()
+    kf = load_kf()
+    listed = {k['role']: k for k in kf.get('known', [])}
+    base, repo = prepare_scratch('-'.join(prop_ids)[:20])
+    rc = 0
+    try:
+        with mp.Pool(2) as bp:
+            a1 = bp.apply_async(dump_mir, (base, repo))
+            a2 = bp.apply_async(build_native, (base, repo))
+            mir, t_mir = a1.get()
+            binary, t_nat = a2.get()
+        log(f'[setup] MIR dump {t_mir:.1f}s, native build {t_nat:.1f}s')
+        for pid in prop_ids:
+            cfg = P.PROPS[pid]
+            rc = max(rc, run_one(pid, cfg, tier, seed, base, repo, mir, binary, listed, t_mir + t_nat))
+    finally:
+        if not keep:
+            shutil.rmtree(base, ignore_errors=True)
+    return rc
+
+
+def run_one(pid, cfg, tier, seed, base, repo, mir, binary, listed, t_setup):
+    t0 = time.time()
+    names = cfg['harnesses']
+    max_paths = cfg.get('max_paths', {}).get(tier, 200000 if tier == 'quick' else 3000000)
+    opts = {'tier': tier}
+    ncpu = int(os.environ.get('VERIF_JOBS', '16'))
+    with mp.Pool(ncpu, initializer=_worker_init,
+                 initargs=(mir, repo, set(listed), seed, cfg.get('step_cap', 3_000_000), opts)) as pool:
+        res = explore_harnesses(pool, names, max_paths, seed, cfg.get('time_budget', {}).get(tier))
+    t_explore = time.time() - t0
+    # ---- native replay -------------------------------------------------------------
+    cap = cfg.get('witness_cap', {}).get(tier, 4000 if tier == 'quick' else 20000)
+    rnd = random.Random(seed)
+    cases = []
+    expect = {}
+    for h, hr in res.items():
+        ws = hr.witnesses
+        if len(ws) > cap:
+            ws = rnd.sample(ws, cap)
+        for i, w in enumerate(ws):
+            cid = f'w{len(cases)}'
+            cases.append((cid, h, w[0]))
+            expect[cid] = ('witness', h, w)
+        for i, v in enumerate(hr.violations[:50]):
+            cid = f'v{len(cases)}'
+            cases.append((cid, h, v['inputs']))
+            expect[cid] = ('violation', h, v)
+        for i, v in enumerate(hr.panics[:50]):
+            cid = f'p{len(cases)}'
+            cases.append((cid, h, v['inputs']))
+            expect[cid] = ('panic', h, v)
+    tr = native_run(binary, base, cases) if cases else {}
+    divergences = []
+    confirmed = []
+    validated = 0
+    for cid, (kind, h, x) in expect.items():
+        t = tr.get(cid)
+        if t is None:
+            divergences.append((h, 'no transcript', cid))
+            continue
+        if kind == 'witness':
+            inputs, obs, checks, outcome, msg = x
+            nat_panic = (t['end'] or '').startswith('PANIC')
+            okk = (outcome == 'panic') == nat_panic
+            okk = okk and [(a, b) for a, b in t['obs']][:len(obs)] == [(a, str(b)) for a, b in obs][:len(t['obs'])]
+            if outcome == 'ok':
+                okk = okk and len(t['obs']) == len(obs) and all(v for _, v in t['checks'])
+            if okk:
+                validated += 1
+            else:
+                divergences.append((h, f'witness mismatch sym={outcome}:{msg} obs={obs} native={t}', inputs))
+        elif kind == 'violation':
+            bad = [c for c, v in t['checks'] if c == x['check'] and not v]
+            if bad:
+                confirmed.append((h, x['check'], x['inputs'], 'check'))
+            else:
+                divergences.append((h, f'counterexample for {x["check"]} does not reproduce natively: {t}', x['inputs']))
+        else:
+            if (t['end'] or '').startswith('PANIC'):
+                confirmed.append((h, 'panic', x['inputs'], t['end']))
+            else:
+                divergences.append((h, f'panic path does not reproduce natively: {x["msg"]} native={t}', x['inputs']))
+    # ---- verdict ---------------------------------------------------------------------
+    out_lines = []
+    rc = 0
+    gaps = [(h, g) for h, hr in res.items() for g in hr.gaps]
+    trunc = [h for h, hr in res.items() if hr.truncated]
+    missing_cover = []
+    for h, hr in res.items():
+        for c in cfg.get('covers', {}).get(h, []):
+            if c not in hr.covers:
+                missing_cover.append((h, c))
+        if hr.checks == 0 and not cfg.get('no_checks_ok'):
+            missing_cover.append((h, '<no check reached>'))
+    kf_seen = {}
+    for h, hr in res.items():
+        for role, inp in hr.kf.items():
+            kf_seen.setdefault(role, (h, inp))
+    for role, (h, inp) in sorted(kf_seen.items()):
+        if role in listed and listed[role]['property'] == pid:
+            out_lines.append(f'KNOWN-FINDING: property={pid} {role}: {listed[role]["what"]} (witness {h} {inp})')
+    os.makedirs(os.path.join(VERIF, 'replays'), exist_ok=True)
+    viol_files = []
+    seen = set()
+    for h, chk, inputs, how in confirmed:
+        key = (h, chk)
+        if key in seen:
+            continue
+        seen.add(key)
+        body = {'property': pid, 'harness': h, 'check': chk, 'inputs': inputs, 'native': how}
+        hh = hashlib.sha1(json.dumps(body, sort_keys=True).encode()).hexdigest()[:10]
+        path = os.path.join(VERIF, 'replays', f'{pid}-{h.replace("::", "-")}-{hh}.json')
+        json.dump(body, open(path, 'w'), indent=1)
+        viol_files.append(path)
+        out_lines.append(f'VIOLATION property={pid} replay={path}')
+        log(f'  violation {h} {chk}: inputs={inputs} ({how})')
+        rc = 1
+    if rc == 0 and (gaps or divergences or trunc or missing_cover):
+        rc = 2
+    for h, g in gaps[:10]:
+        log(f'INCONCLUSIVE {pid} {h}: model gap: {g[:600]}')
+    for h, d, inp in divergences[:10]:
+        log(f'INCONCLUSIVE {pid} {h}: ENGINE-DIVERGENCE {str(d)[:800]} inputs={inp}')
+    for h in trunc:
+        log(f'INCONCLUSIVE {pid} {h}: path cap / time budget hit before the space was exhausted')
+    for h, c in missing_cover:
+        log(f'INCONCLUSIVE {pid} {h}: cover point never reached: {c}')
+    # ---- evidence ----------------------------------------------------------------------
+    wall = time.time() - t0 + t_setup
+    states = sum(hr.paths for hr in res.values())
+    samples = []
+    for h, hr in res.items():
+        for w in hr.witnesses[:3]:
+            samples.append({'harness': h, 'inputs': w[0], 'observations': w[1], 'outcome': w[3]})
+    ev = {
+        'property_id': pid, 'tier': tier, 'seed': seed, 'level': 'model_checking',
+        'coverage': {
+            'states': states,
+            'transitions': sum(hr.transitions for hr in res.values()),
+            'traces_validated_against_impl': validated,
+            'samples': samples or [{'note': 'no completed path'}],
+            'exhaustive': not (gaps or trunc),
+            'rule': 'states = control-flow paths of the real MIR (harness + crate code + reference model) explored by '
+                    'forking symbolic execution; each path stands for every input satisfying its path condition; '
+                    'each sym::check on a path is one solver query pc && !cond',
+            'harnesses': {h: {'paths': hr.paths, 'completed': hr.ok, 'panic_paths': len(hr.panics),
+                              'checks_discharged': hr.checks, 'violations': len(hr.violations),
+                              'solver_queries': hr.queries, 'solver_time_s': round(hr.qtime, 2),
+                              'mir_steps': hr.steps, 'covers': sorted(hr.covers), 'gaps': len(hr.gaps),
+                              'truncated': hr.truncated,
+                              'bounds': cfg.get('bounds', {}).get(h, '')} for h, hr in res.items()},
+            'functions_encoded': sorted(set().union(*[hr.fns for hr in res.values()]) if res else []),
+            'models_used': sorted(set().union(*[hr.models for hr in res.values()]) if res else []),
+            'queries': sum(hr.queries for hr in res.values()),
+            'solver_time_s': round(sum(hr.qtime for hr in res.values()), 2),
+            'solver': solver_versions(),
+            'bounds': cfg.get('bounds_text', {}).get(tier, cfg.get('bounds_text', {}).get('quick', '')),
+            'outside_claim': cfg.get('outside', ''),
+            'known_findings_seen': sorted(kf_seen),
+            'inconclusive': {'gaps': len(gaps), 'divergences': len(divergences), 'truncated': trunc,
+                             'missing_covers': missing_cover},
+            'explore_time_s': round(t_explore, 1),
+        },
+        'assumptions': cfg.get('assumptions', []) + [
+            'rustc nightly MIR printer + mirsym parser/interpreter; std models in /verif/mirsym/models*.py '
+            '(validated by native replay of path witnesses)', 'z3 is sound'],
+        'wall_s': round(wall, 1),
+        'violations': len(viol_files),
+    }
+    os.makedirs(os.path.join(VERIF, 'evidence'), exist_ok=True)
+    json.dump(ev, open(os.path.join(VERIF, 'evidence', pid + '.json'), 'w'), indent=1, default=str)
+    for l in out_lines:
+        print(l, flush=True)
+    log(f'[{pid}] tier={tier} paths={states} checks={sum(hr.checks for hr in res.values())} '
+        f'validated={validated} violations={len(viol_files)} rc={rc} explore={t_explore:.1f}s wall={wall:.1f}s')
+    return rc
+
+
+def replay_file(path):
+    body = json.load(open(path))
+    base, repo = prepare_scratch('replay')
+    try:
+        binary, _ = build_native(base, repo)
+        tr = native_run(binary, base, [('r0', body['harness'], [tuple(x) for x in body['inputs']])])
+        t = tr['r0']
+        print(json.dumps(t, indent=1))
+        bad = [c for c, v in t['checks'] if not v] or (t['end'] or '').startswith('PANIC')
+        if bad:
+            print(f'VIOLATION property={body["property"]} replay={path}')
+            return 1
+        return 0
+    finally:
+        shutil.rmtree(base, ignore_errors=True)
+
+
+def main(argv):
+    import argparse
+    ap = argparse.ArgumentParser()
+    ap.add_argument('props', nargs='+')
+    ap.add_argument('--tier', default=os.environ.get('VERIF_TIER', 'quick'))
+    ap.add_argument('--keep', action='store_true')
+    a = ap.parse_args(argv)
+    seed = int(os.environ.get('VERIF_SEED', '0') or 0)
+    if a.props[0] == 'replay':
+        return replay_file(a.props[1])
+    return run_props(a.props, a.tier, seed, a.keep)
+
+
+if __name__ == '__main__':
+    sys.exit(main(sys.argv[1:]))
